@@ -513,6 +513,9 @@ impl VersionSet {
                         ));
                     }
                 }
+
+                // The new version was not installed. Callers must not act as if it was.
+                return Err(error);
             }
         }
 
